@@ -39,7 +39,10 @@ def main():
         if len(needs) > 230:
             needs = needs[:227] + "..."
         rc, nv, ob = res.get(sid, (None, 0, None))
-        if sid in OUTSIDE and rc != 1:
+        if sid in THOROUGH_ONLY:
+            caught = THOROUGH_ONLY[sid]
+            missed.append(sid)
+        elif sid in OUTSIDE and rc != 1:
             caught = OUTSIDE[sid]
             missed.append(sid)
         elif rc == 1 and ob:
